@@ -192,8 +192,27 @@ def check_classes(ctx, rule: str, relpath: str, table, extra_classes=None, leave
         ignore = set(opts.get("ignore", ()))  # fields that are not content (random padding), one reason each in the rule's table
         rt = RoundTrip(ctx, relpath, cname, leaves, sym_map, extra_classes)
         probs = []
-        for kw in models:
+        # small-value sweep: every integer argument of every model is replaced, one at a time, by 0 (a value, not "absent") and, in the
+        # thorough tier, by 1 and 2.  A variant the constructor or export refuses is not an obligation; one that is accepted must
+        # round-trip like the listed models.  (All-ones / width-boundary values were tried and dropped: without the field widths they
+        # mostly produce inputs outside the format's domain - memory ids above 12 bits, 64 K-bit curves - whose silent truncation is a
+        # robustness question the properties do not ask.)
+        sweep = (0,) if ctx.chk.tier != "thorough" else (0, 1, 2)
+        variants = []
+        if opts.get("sweep", True):
+            seen_v = set()
+            for kw in models:
+                for key, val in kw.items():
+                    if isinstance(val, int) and not isinstance(val, bool) and not key.startswith("__"):
+                        for v in sweep:
+                            if v != val and (key, v, id(kw)) not in seen_v:
+                                seen_v.add((key, v, id(kw)))
+                                variants.append(dict(kw, **{key: v}))
+        for vi, kw in enumerate(list(models) + variants):
+            is_variant = vi >= len(models)
             built, data, parsed = rt.run(kw)
+            if is_variant and ((isinstance(built, tuple) and built and built[0] == "raise") or not isinstance(data, (bytes, bytearray))):
+                continue  # refused: nothing to round-trip
             if ignore and isinstance(built, dict) and isinstance(parsed, dict):
                 built = {k: v for k, v in built.items() if k not in ignore}
                 parsed = {k: v for k, v in parsed.items() if k not in ignore}
